@@ -190,4 +190,39 @@ def stepC (pol : Option Policy) (derived : Bool) (c : MC) : ActC → MC
 def runC (pol : Option Policy) (derived : Bool) (c : MC) (sched : List ActC) : MC :=
   sched.foldl (stepC pol derived) c
 
+/-! ### the statement's consistency level, written by `rt.Attempt` (DowngradingConsistencyRetryPolicy) from
+    whichever execution takes a retry decision and read by whichever execution builds the next request frame -/
+
+structure MK where
+  c : MC
+  cons : Nat                   -- `qry.GetConsistency()` now
+  reqCons : List Nat := []     -- the consistency each request sent so far carried, most recent first
+deriving DecidableEq, Repr
+
+/-- the execution whose retry decision (`rt.Attempt` is part of it) the step `a` takes, if any: on a live context
+    only `decide`; on a context that is done every step of an execution is its (dead) continuation -/
+def deciding (attDone : Bool) : ActC → Option Nat
+  | .ex (.decide i) => some i
+  | .ex (.launch i) => if attDone then some i else none
+  | .ex (.abort i) => if attDone then some i else none
+  | _ => none
+
+/-- the consistency after the step: `Attempt` answering true with `Attempts() = cnt` sets `newCons cnt` -/
+def consAfter (pol : Option Policy) (derived : Bool) (k : MK) (a : ActC) : Nat :=
+  match deciding (k.c.attDone derived) a, pol with
+  | some i, some p =>
+      match k.c.m.exs[i]? with
+      | some (.counted (.err _)) => if p.attempt k.c.m.cnt then (p.newCons k.c.m.cnt).getD k.cons else k.cons
+      | _ => k.cons
+  | _, _ => k.cons
+
+def stepK (pol : Option Policy) (derived : Bool) (k : MK) (a : ActC) : MK :=
+  let c' := stepC pol derived k.c a
+  let cons' := consAfter pol derived k a
+  { c := c', cons := cons', reqCons := if c'.m.sent > k.c.m.sent then cons' :: k.reqCons else k.reqCons }
+
+def initK (c0 hosts e cons : Nat) : MK := { c := initC c0 hosts e, cons := cons }
+
+def runK (pol : Option Policy) (derived : Bool) (k : MK) (sched : List ActC) : MK := sched.foldl (stepK pol derived) k
+
 end ExecutorConc
